@@ -50,10 +50,12 @@ def with_comments(p, salt):
     return "\n".join(lines) + "\n", n
 
 
-STRESS_REPL = ["kf(2, 3)", "(n + 1)", "g('a b', \"a b\")", "1.5e-3", "mod(k, 2) + 1"]
+STRESS_REPL = ["kf(2, 3)", "(n + 1)", "g('a b', \"a b\")", "1.5e-3", "mod(k, 2) + 1",
+               # a bracketed constructor holding an operator as the operand of an operator; a signed operand (bounds: 'a(-k:-1)')
+               "n + [k - 1, 2]", "-k", "2 * (/k + 1, n/)"]
 
 
-def stressed_variants(p, limit):
+def stressed_variants(p, limit, per_slot=1):
     """Metamorphic placeholder stress: the statement carrying the non-default catalogue variant is rewritten with ONE
     integer literal or one bracketed simple name replaced by a bracketed / quoted / exponent expression.  Whether the
     result is still valid Fortran is not known - the laws are claimed only if the first parse accepts it (the
@@ -80,12 +82,48 @@ def stressed_variants(p, limit):
             elif depth == 0 and j == len(toks) - 1 and j > 1 and t.isidentifier() and toks[j - 1][0] in (",", ")", "+", "-", "*", "/", "**"):
                 slots.append(j)       # a trailing operand outside brackets (computed GOTO index, last term of an expression)
         for n_, j in enumerate(slots[:limit]):
-            new = list(toks)
-            new[j] = (STRESS_REPL[(n_ + i) % len(STRESS_REPL)], toks[j][1])
-            stmts = list(p["stmts"])
-            stmts[i] = dict(st, text=perturb.join_tokens(new))
-            out.append(render.free_text(stmts))
+            reps = [STRESS_REPL[(n_ * per_slot + m + i + p.get("id", 0)) % len(STRESS_REPL)] for m in range(per_slot)]
+            if toks[j - 1][0] == ":" and "-k" not in reps:
+                reps.append("-k")          # an upper bound / the end of a section that starts with a sign
+            for rep in reps:
+                new = list(toks)
+                new[j] = (rep, toks[j][1])
+                stmts = list(p["stmts"])
+                stmts[i] = dict(st, text=perturb.join_tokens(new))
+                out.append(render.free_text(stmts))
     return out
+
+
+UNIT_KINDS = ("prog", "main0", "sub", "fun", "mod", "smod", "bdata")
+
+
+def joined_last_unit(p, cont=False):
+    """The program with all statements of its LAST program unit on one line, separated by ';' (cont: that line continued after
+    every ';').  None when a statement of the unit may not follow a ';' in the class (label, labelled DO, FORMAT, main program
+    without PROGRAM statement).  -> text, number of top-level units"""
+    out, st = p["out"], p["stmts"]
+    if len(out) != len(st):
+        return None
+    depth, starts = 0, []
+    for i, r in enumerate(out):
+        if r["k"] in UNIT_KINDS:
+            if depth == 0:
+                starts.append(i)
+            depth += 1
+        elif r["k"] == "endu":
+            depth -= 1
+    if not starts or out[starts[-1]]["k"] == "main0":
+        return None
+    a = starts[-1]
+    for i in range(a, len(out)):
+        if (i > a and st[i]["label"]) or out[i]["k"] in ("dol", "format") or st[i]["text"].lstrip().startswith(("#", "include", "!")):
+            return None
+    lines = [render.stmt_line(x) for x in st[:a]]
+    parts = [render.stmt_line(x, indent=False) for x in st[a:]]
+    lines.append((("; &\n    ") if cont else "; ").join(parts))
+    if not render.free_form_evident("\n".join(lines)):
+        return None
+    return "\n".join(lines) + "\n", len(starts)
 
 
 def include_twice(p):
@@ -117,15 +155,27 @@ def cases_for(prop, progs, tier="thorough"):
             cases.append({"id": p["id"], "src": p["src"], "cfgs": cfgs, "want": WANT[prop], "variant": "plain"})
             continue
         if prop == "C02":
+            if p.get("reorders"):
+                continue
             cfgs = [(s, True, False) for s in stds]
             cases.append({"id": p["id"], "src": p["src"], "cfgs": cfgs, "want": WANT[prop], "variant": "plain"})
+            ju = joined_last_unit(p, cont=bool(p["id"] % 2))
+            if ju and (ju[1] > 1 or p["id"] % (8 if quick else 2) == 0):
+                cases.append({"id": p["id"], "src": ju[0], "cfgs": [(stds[-1], True, False)], "want": WANT[prop], "variant": "last-unit-on-one-line"})
             if p["fam"] == "sweep":
-                for src2 in stressed_variants(p, 3 if quick else 12):
+                for src2 in stressed_variants(p, 3 if quick else 12, 3 if quick else len(STRESS_REPL)):
                     cases.append({"id": p["id"], "src": src2, "cfgs": [(stds[-1], True, False)], "want": WANT[prop], "variant": "stress", "conditional": True})
             continue
         if prop in ("C01", "C10"):
             cfgs = [(s, True, False) for s in stds]
             cases.append({"id": p["id"], "src": p["src"], "cfgs": cfgs, "want": WANT[prop], "variant": "plain"})
+            ju = joined_last_unit(p, cont=bool(p["id"] % 2))
+            if ju and (ju[1] > 1 or p["id"] % (8 if quick else 2) == 0):
+                cases.append({"id": p["id"], "src": ju[0], "cfgs": [(stds[-1], True, False)], "want": WANT[prop], "variant": "last-unit-on-one-line"})
+            if prop == "C01" and p["fam"] == "sweep":
+                # operands replaced by bracketed / signed / quoted expressions: whatever the first parse accepts has to be a fixpoint
+                for src2 in stressed_variants(p, 3 if quick else 12, 3 if quick else len(STRESS_REPL)):
+                    cases.append({"id": p["id"], "src": src2, "cfgs": [(stds[-1], True, False)], "want": WANT[prop], "variant": "stress", "conditional": True})
             src2, n = with_comments(p, p["id"])
             if n and not (quick and p["id"] % 3):
                 cfgs2 = [(stds[-1], False, False)] if quick else [(stds[-1], False, False), (stds[0], False, True)]
@@ -180,7 +230,8 @@ def events_for(prop, case, r, D, tree_ctr):
                 ev.append({"e": "copy", "tree": t, "how": c["how"], "ok": c["ok"], "st": D(c["st"]), "text": D(c["text"]),
                            "disjoint": c["disjoint"], "indep": c["indep"], "wf": c["wf"]})
         if prop == "C01":
-            ev.append({"e": "claim", "law": "fixpoint", "src": s0, "cfg": _cfgid(cfg)})
+            if not case.get("conditional") or run["o"]["res"] == "ok":
+                ev.append({"e": "claim", "law": "fixpoint", "src": s0, "cfg": _cfgid(cfg)})
         elif prop == "C02":
             if not case.get("conditional") or run["o"]["res"] == "ok":
                 ev.append({"e": "claim", "law": "tokens", "src": s0, "cfg": _cfgid(cfg)})
